@@ -29,7 +29,7 @@
  */
 typedef struct rotenc {
 	uint8_t last_state;
-	uint8_t count;
+	uint16_t count;
 	uint16_t internal_count;
 } rotenc_t;
 
